@@ -60,6 +60,9 @@ def svc_args(idx, sn, variant):
     idtxt = IDS[idx].upper().encode() if sn % 2 == 0 else IDS[idx].encode()
     pairs = [(b"c#", b"%d" % (sn + 1)), (b"id" if (sn % 3 or variant == "linklocal") else b"ID", idtxt), (b"md", b"unit"), (b"s#", b"%d" % sn),
              (b"ci", b"5"), (b"sf", b"0")]
+    if sn % 2 == 1:
+        # valueless DNS-SD attributes (bare key, no '='): they count as absent, the record stays valid
+        pairs += [(b"ff", None), (b"sh", None)] + ([(b"pv", None)] if sn % 4 == 3 else [(b"md2", None)])
     addrs = [socket.inet_aton("169.254.7.7"), socket.inet_aton("10.0.0.%d" % (idx + 1)),
              socket.inet_pton(socket.AF_INET6, "fe80::1")]
     port = 5000 + idx
@@ -328,7 +331,8 @@ class Rig:
     def discoveries(self):
         out = []
         for c in ([self.ctrl] if self.kind != "agg" else [self.ip, self.ble]):
-            out.append(",".join(sorted(f"{hx(str(k).encode())}:{int(v.description.config_num)}:{int(v.description.state_num)}"
+            out.append(",".join(sorted(f"{hx(str(k).encode())}:{_ti(getattr(v.description, 'config_num', None), 'cn')}"
+                                       f":{_ti(getattr(v.description, 'state_num', None), 'sn')}"
                                        for k, v in c.discoveries.items())) or "-")
         return " / ".join(out)
 
@@ -339,8 +343,11 @@ class Rig:
         out = []
         for k, v in self.ip.discoveries.items():
             d = v.description
-            out.append(f"{hx(str(k).encode())}:{ipaddress.ip_address(str(d.address).split('%')[0]).packed.hex()}:{int(d.port)}"
-                       f":{int(d.config_num)}:{int(d.state_num)}")
+            try:
+                adr = ipaddress.ip_address(str(d.address).split('%')[0]).packed.hex()
+            except Exception:  # noqa
+                adr = "other:addr:" + type(d.address).__name__
+            out.append(f"{hx(str(k).encode())}:{adr}:{_ti(d.port, 'port')}:{_ti(d.config_num, 'cn')}:{_ti(d.state_num, 'sn')}")
         return ",".join(sorted(out)) or "-"
 
     async def stop(self):
@@ -385,7 +392,7 @@ async def exec_schedule(loop, kind, events, objs):
         try:
             d = await rig.ctrl.async_find(wid, tau / ticks)
             desc = d.description
-            res[k] = "found:%s:%d:%d:%d" % (hx(str(desc.id).encode()), int(desc.config_num), int(desc.state_num), loop.ticks - t0)
+            res[k] = "found:%s:%s:%s:%d" % (hx(str(desc.id).encode()), _ti(desc.config_num, "cn"), _ti(desc.state_num, "sn"), loop.ticks - t0)
         except AccessoryNotFoundError:
             res[k] = "notfound:%d" % (loop.ticks - t0)
         except asyncio.CancelledError:
@@ -1001,6 +1008,43 @@ def fmt_addr(s):
     return ("4:" if ip.version == 4 else "6:") + ip.packed.hex()
 
 
+# ---------------------------------------------------------------- total extractors: a check stays standing on broken code
+def _tx(x, field="?"):
+    """text field -> hex; a value of an unexpected type becomes part of the compared outcome"""
+    if isinstance(x, str):
+        return hx(x.encode("utf-8", "surrogatepass"))
+    if isinstance(x, (bytes, bytearray)):
+        return hx(bytes(x))
+    return "other:%s:%s" % (field, type(x).__name__)
+
+
+def _ti(x, field="?"):
+    """integer field -> decimal"""
+    try:
+        return str(int(x))
+    except Exception:  # noqa
+        return "other:%s:%s" % (field, type(x).__name__)
+
+
+def _ta(x, field="?"):
+    try:
+        return fmt_addr(x)
+    except Exception:  # noqa
+        return "other:%s:%s" % (field, type(x).__name__)
+
+
+def total(fn):
+    """an exception in the harness's own handling of one case is that case's outcome, never a harness exception"""
+    def wrapped(*a, **k):
+        try:
+            return fn(*a, **k)
+        except Exception as e:  # noqa
+            return "harness-post:%s:%s" % (fn.__name__, type(e).__name__)
+    wrapped.__name__ = fn.__name__
+    return wrapped
+
+
+@total
 def impl_psvc(args):
     from aiohomekit.zeroconf import HomeKitService
     try:
@@ -1013,12 +1057,15 @@ def impl_psvc(args):
         return "err value"
     except Exception as e:  # noqa
         return "other:" + type(e).__name__
-    return ("ok name=%s id=%s md=%s cn=%d sn=%d ff=%d sf=%d ci=%d pv=%s type=%s addr=%s addrs=%s port=%d" % (
-        hx(s.name.encode()), hx(s.id.encode()), hx(s.model.encode()), int(s.config_num), int(s.state_num),
-        int(s.feature_flags), int(s.status_flags), int(s.category), hx(s.protocol_version.encode()), hx(s.type.encode()),
-        fmt_addr(s.address), ",".join(fmt_addr(a) for a in s.addresses) or "-", int(s.port)))
+    return ("ok name=%s id=%s md=%s cn=%s sn=%s ff=%s sf=%s ci=%s pv=%s type=%s addr=%s addrs=%s port=%s" % (
+        _tx(s.name, "name"), _tx(s.id, "id"), _tx(s.model, "md"), _ti(s.config_num, "cn"), _ti(s.state_num, "sn"),
+        _ti(s.feature_flags, "ff"), _ti(s.status_flags, "sf"), _ti(s.category, "ci"), _tx(s.protocol_version, "pv"),
+        _tx(s.type, "type"), _ta(s.address, "addr"),
+        (",".join(_ta(a, "addrs") for a in s.addresses) or "-") if isinstance(s.addresses, (list, tuple)) else "other:addrs:" + type(s.addresses).__name__,
+        _ti(s.port, "port")))
 
 
+@total
 def impl_padv(md):
     from aiohomekit.controller.ble.manufacturer_data import HomeKitAdvertisement
     try:
@@ -1027,10 +1074,11 @@ def impl_padv(md):
         return "err value"
     except Exception as e:  # noqa
         return "other:" + type(e).__name__
-    return "ok id=%s cat=%d sf=%d cn=%d sn=%d sh=%s" % (hx(a.id.encode()), int(a.category), int(a.status_flags),
-                                                        int(a.config_num), int(a.state_num), hx(a.setup_hash))
+    return "ok id=%s cat=%s sf=%s cn=%s sn=%s sh=%s" % (_tx(a.id, "id"), _ti(a.category, "cat"), _ti(a.status_flags, "sf"),
+                                                        _ti(a.config_num, "cn"), _ti(a.state_num, "sn"), _tx(a.setup_hash, "sh"))
 
 
+@total
 def impl_pnot(md):
     from aiohomekit.controller.ble.manufacturer_data import HomeKitEncryptedNotification
     try:
@@ -1039,7 +1087,7 @@ def impl_pnot(md):
         return "err value"
     except Exception as e:  # noqa
         return "other:" + type(e).__name__
-    return "ok id=%s advid=%s payload=%s" % (hx(a.id.encode()), hx(a.advertising_identifier), hx(a.encrypted_payload))
+    return "ok id=%s advid=%s payload=%s" % (_tx(a.id, "id"), _tx(a.advertising_identifier, "advid"), _tx(a.encrypted_payload, "payload"))
 
 
 def blur_neg(model, impl):
@@ -1147,6 +1195,25 @@ def gen_psvc(tier, r):
            [(b"id", b"ab"), (b"md", None), (b"pv", None)], [(b"i\xc3\xa4", b"x"), (b"id", b"a")], [(b"id", b"\xc4\xb0")]]
     for pairs in dup:
         cases.append(("dup", (NAME, TY, GOOD, 1, txt_of(pairs)), None))
+    # every key the parser reads (and sh, which it does not), valueless (bare key) or with an empty value, in three
+    # key-case modes, alone and next to the other keys.  A valueless attribute counts as absent (default applies).
+    allkeys = KEYS + [b"sh"]
+    vals = {b"c#": b"%d" % base["cn"], b"id": base["id"], b"md": base["md"], b"s#": b"%d" % base["sn"], b"ci": b"%d" % base["ci"],
+            b"sf": b"%d" % base["sf"], b"ff": b"%d" % base["ff"], b"pv": base["pv"], b"sh": b"aGVsbG8="}
+    for k in allkeys:
+        for mode in "lum":
+            for val, tag in ((None, "bare"), (b"", "empty")):
+                full = [(case_variants(x, mode), val if x == k else vals[x]) for x in allkeys]
+                if val is None:
+                    e = "err" if k == b"id" else expect(base, GOOD, (k,))
+                else:
+                    e = None        # empty value: '' for strings, ValueError for integers - compared with the model
+                cases.append(("valueless-" + tag, (NAME, TY, GOOD, 1234, txt_of(full)), e))
+                cases.append(("valueless-" + tag, (NAME, TY, GOOD, 1234, txt_of([(b"id", b"aa:bb"), (case_variants(k, mode), val)])),
+                              None))
+    for k1, k2 in itertools.combinations([x for x in allkeys if x != b"id"], 2):
+        full = [(x, None if x in (k1, k2) else vals[x]) for x in allkeys]
+        cases.append(("valueless-bare", (NAME, TY, GOOD, 1234, txt_of(full)), expect(base, GOOD, (k1, k2))))
     # truncations: every prefix of several valid TXT blobs; every single-byte deletion; every length byte +-1
     blobs = [render(base, "l", KEYS), render(base, "u", list(reversed(KEYS))), render(fields(r), "m", KEYS),
              txt_of([(b"id", b"aa:bb:cc:dd:ee:ff")]), render(base, "l", [b"id", b"c#", b"s#"])]
@@ -1353,6 +1420,10 @@ def run_callback_stream(ctx, cov, viols):
     raws_m = [base_m[:4] + (base_m[4][:n],) for n in range(len(base_m[4]) + 1)]
     raws_m += [base_m[:2] + (sel,) + base_m[3:] for sel in ([], [POOL[1]], [POOL[5], POOL[0]], [POOL[6], POOL[2]])]
     raws_m += [base_m[:4] + (txt_of([(b"id", X.encode()), (b"c#", lit)]),) for lit in INT_LITS if len(lit) < 250]
+    for k in KEYS + [b"sh"]:        # valueless / empty attributes for every key, through the callbacks
+        for val in (None, b""):
+            raws_m.append(base_m[:4] + (txt_of([(b"id", X.encode()), (b"c#", b"2"), (b"s#", b"3")] + [(k if k != b"id" else b"ID", val)]),))
+            raws_m.append(base_m[:4] + (txt_of([(k, val)] + [(b"id", X.encode()), (b"c#", b"2")]),))
     global CAT
     saved_cat, saved_objs = CAT, dict(_impl_cache)
     try:
